@@ -152,8 +152,18 @@ CATALOGUE = {
   (F, 'R-LINECOUNT', 'icarttfiles/ffi1001.py', "len(depvarkeys) + 15", "len(depvarkeys) + 14"),
   (F, 'R-LINEORDER', 'icarttfiles/ffi1001.py', "    print(getattr(f, 'PI_NAME', 'Unknown'), file=outfile)\n    print(getattr(f, 'ORGANIZATION_NAME', 'Unknown'), file=outfile)", "    print(getattr(f, 'ORGANIZATION_NAME', 'Unknown'), file=outfile)\n    print(getattr(f, 'PI_NAME', 'Unknown'), file=outfile)"),
   (F, 'R-MISSRC', 'icarttfiles/ffi1001.py', "            filled(var[:], getattr(var, 'missing_value', -999)).ravel())", "            filled(var[:]).ravel())"),
-  (F, 'R-PRECISION', 'icarttfiles/ffi1001.py', "format='%.6e'", "format='%.5e'"),
-  (S, None, 'icarttfiles/ffi1001.py', "format='%.6e'", "format='%.8e'"),
+  (F, 'R-PRECISION', 'icarttfiles/ffi1001.py', "else '%.6e' % v", "else '%.5e' % v"),
+  (S, None, 'icarttfiles/ffi1001.py', "else '%.6e' % v", "else '%.8e' % v"),
+  # R-MISSCELL (defect fixed in /repo 84c90cb): the cells that hold the missing code keep every digit of it
+  (F, 'R-MISSCELL', 'icarttfiles/ffi1001.py', "        print(delim.join([str(c) if v == c else '%.6e' % v\n                          for v, c in zip(row, codes)]), file=outfile)", "        row.tofile(outfile, format='%.6e', sep=delim)\n        print('', file=outfile)"),
+  (F, 'R-MISSCELL', 'icarttfiles/ffi1001.py', "[str(c) if v == c else '%.6e' % v\n", "['%.6e' % v\n"),
+  (F, 'R-MISSCELL', 'icarttfiles/ffi1001.py', "[str(c) if v == c else '%.6e' % v\n", "[str(c) if v != c else '%.6e' % v\n"),
+  (F, 'R-MISSCELL', 'icarttfiles/ffi1001.py', "[str(c) if v == c else '%.6e' % v\n", "['%.6e' % c if v == c else '%.6e' % v\n"),
+  (F, 'R-MISSCELL', 'icarttfiles/ffi1001.py', "    codes = [None] + [getattr(f.variables[k], 'missing_value', -999)\n", "    codes = [None] + [getattr(f.variables[k], 'missing_value', -9999)\n"),
+  (S, None, 'icarttfiles/ffi1001.py', "[str(c) if v == c else '%.6e' % v\n", "['%.6e' % v if v != c else str(c)\n"),
+  (S, None, 'icarttfiles/ffi1001.py', "[str(c) if v == c else '%.6e' % v\n", "[repr(c) if c == v else '%.6e' % v\n"),
+  (S, None, 'icarttfiles/ffi1001.py', "[str(c) if v == c else '%.6e' % v\n", "[str(c) if v == c else '%.17g' % v\n"),
+  (S, None, 'icarttfiles/ffi1001.py', "        print(delim.join([str(c) if v == c else '%.6e' % v\n                          for v, c in zip(row, codes)]), file=outfile)", "        cells = []\n        for v, c in zip(row, codes):\n            if v == c:\n                cells.append(str(c))\n            else:\n                cells.append('%.6e' % v)\n        print(delim.join(cells), file=outfile)"),
  ],
  'C20': [
   (F, 'R-ARLCONST', 'noaafiles/_arl.py', "np.float32(7 - EXP.astype('i'))", "np.float32(6 - EXP.astype('i'))"),
@@ -230,7 +240,8 @@ CATALOGUE['C19'] += [
   (F, 'R-DATASHAPE', _FFI, "        data = data.reshape(ndatalines, len(variables))\n", ""),
   (F, 'R-MISSFMT', _FFI, "[str(getattr(f.variables[k], 'missing_value', -999))", "['%g' % getattr(f.variables[k], 'missing_value', -999)"),
   (S, None, _FFI, "[str(getattr(f.variables[k], 'missing_value', -999))", "[repr(getattr(f.variables[k], 'missing_value', -999))"),
-  (S, None, _FFI, "[str(getattr(f.variables[k], 'missing_value', -999))", "['%.8e' % getattr(f.variables[k], 'missing_value', -999)"),
+  # since 84c90cb the cells that hold the code are written with str(): a header code with nine digits no longer matches a longer code
+  (F, 'R-MISSFMT', _FFI, "[str(getattr(f.variables[k], 'missing_value', -999))", "['%.8e' % getattr(f.variables[k], 'missing_value', -999)"),
 ]
 CATALOGUE['C20'] += [
   (F, 'R-ABSMAX', _ARL, "    colmax = np.abs(np.diff(RVAR, axis=1)).max()", "    colmax = np.abs(np.diff(RVAR, axis=1).max())"),
